@@ -459,6 +459,27 @@ func run(cfg lib.Cfg) error {
 			}
 			judge(sc, "corpus-reference-on-tuple-component", true, nil)
 		}
+		// references with the NEGATED operator "!contains" (accept what is NOT in the referenced
+		// table): dig does the lookup for every operator ending in "contains", so the dependent
+		// has to wait for the referenced integration just the same - a lookup that runs before
+		// the reference has recorded the block answers "not there" and ACCEPTS the row.  On an
+		// input, on the block field, on a tuple component, with a second positive reference;
+		// the reference behind (even) or not started (odd) when the dependent takes its steps.
+		for v := 0; v < 8; v++ {
+			shape := []string{"dep", "depbd", "deptup", "dep"}[v/2]
+			d := ts.IGSpec{Name: "a-dep", Shape: shape, Table: "d1", Ref: "r-one", RefNeg: true, RefLo: 1, Hdr: v%4 < 2, Sources: src(1)}
+			g := finishGraph([]ts.IGSpec{d, created("r-one", "r1")})
+			sc := mk(fmt.Sprintf("corpus-negated-reference-%d-%s", v, shape), g, 8, 2, 1, uint64(130+v))
+			sc.Gen.Orders = shape == "deptup"
+			if v%2 == 0 {
+				sc.Acts = append(sc.Acts, ts.Act{Do: "step", Tid: 2})
+			}
+			sc.Acts = append(sc.Acts, ts.Steps(1, 3)...)
+			for i := 0; i < 6; i++ {
+				sc.Acts = append(sc.Acts, ts.Act{Do: "step", Tid: 1}, ts.Act{Do: "step", Tid: 2})
+			}
+			judge(sc, "corpus-negated-reference", true, nil)
+		}
 		// the smallest history of this kind: a-ref never runs, c-ref records two batches,
 		// each dependent takes one step: b-dep must do nothing, d-dep may follow c-ref
 		{
@@ -654,6 +675,14 @@ func run(cfg lib.Cfg) error {
 		head := r.Range(5, 12)
 		if multi {
 			head = r.Range(5, 9) // 4-6 tasks: keep the histories short
+		}
+		if i%4 == 2 {
+			// some dependents use the negated operator
+			for k := range g.igs {
+				if len(g.igs[k].DeclaredRefs()) > 0 && (k%2 == 0 || r.Bool()) {
+					g.igs[k].RefNeg = true
+				}
+			}
 		}
 		if r.Intn(3) == 0 {
 			// bounded backfills: dependents (each with probability 1/2) get a stop below, at or beyond the head
